@@ -78,6 +78,11 @@ CHECKS = {
   text="Every text of up to 4 items out of 15 is loaded; into every text of up to 2 (quick) / 3 (thorough) items each of 6 faults is injected at every position (plus truncation), on top of every small earlier load; every small text is followed by every text of up to 2/3 items; clause runs of every length 1..17 (33) are followed by another predicate and more clauses. After every load: error or not, the output of observing directives and initialization goals, and the ordered answers of every predicate must equal the reference loader's (a failed load changes nothing).",
   note="Trusted: the reference loader in checks/c20.go (stage, fail as a whole, commit with replace / multifile append, then initialization). What a directive sees of its own text's earlier clauses is not asserted.",
   design="DESIGN.md §3 C20"),
+ "C15": dict(
+  technique="bounded-exhaustive enumeration on the real API: all strings up to a length bound over an alphabet of syntax-significant runes x double_quotes x placeholder positions compared structurally with the term the literal denotes; complete grid of Go values / count pairs; complete grid of answer values x Scan destination types x carriers with an exact-or-error oracle",
+  text="Every string of up to 2 (quick) / 3 (thorough) runes over 26 syntax-significant characters (plus strings that spell Prolog syntax) is passed for '?' under each double_quotes flag in 6 positions; the term bound must be exactly the char list / code list / atom of those runes. Integers of every width, floats, nested slices, unsupported kinds and every placeholder/argument count pair are covered. For Scan, 49 answer values around every width boundary x 16 destination types x 3 carriers: the stored value is exactly the answer or an error is returned, and destinations never share storage.",
+  note="Trusted: the denotation function in checks/c15.go. Invalid UTF-8 strings have no denoting literal and are excluded.",
+  design="DESIGN.md §3 C15"),
  "C16": dict(
   technique="bounded-exhaustive enumeration of call patterns on the real interpreter against relations computed by brute force: every instantiation pattern the modes admit x every combination of bound values (matching and non-matching), answers compared as multisets; infinite / variable-creating modes against the reference machine",
   text="For each of the 17 predicates the complete relation over a finite domain (multi-byte characters, lists, integers near the 64-bit limits) is enumerated by brute force and every admissible call pattern is compared with the matching subset of the relation, each tuple exactly once - which also yields the monotonicity clause of the property.",
